@@ -924,7 +924,7 @@ TRUSTED = [
 ]
 ASSUME = [
     "Print Assumptions of every theorem of props/C19.v: Closed under the global context (see coverage.print_assumptions)",
-    "C19_rejected_assignment_unchanged_partial excludes CSSImportRule.cssText (open finding, refuted in "
-    "C19_importrule_csstext_refuted)",
+    "first statement: C19_rejected_assignment_unchanged holds for every setter (no exclusion); lenient statement "
+    "C19_logged_rejection_unchanged_partial excludes Property.cssText[_mediaQuery] (open finding, private mode)",
     "exceptions other than xml.dom.DOMException (crashes of a setter) are outside the statement; they are counted",
 ]
